@@ -1,59 +1,92 @@
-"""Constants of the exporter (containers.py `to_rows`, `_to_rows_recurse`, `to_row_data_sheet`;
-flowrowmodel.py header names of the uuid-carrying row fields)."""
-import ast
+"""Constants of the exporter (containers.py FlowContainer: the DFS of `to_rows`, `to_row_data_sheet`;
+flowrowmodel.py header names of the uuid-carrying row fields).
 
-from ..extract_tables import _find_class, _find_func, _parse, lean_str, lean_str_list
+HOW IT READS (DESIGN §2.5a)
+* excluded headers of `--strip_uuids`: BEHAVIOUR — `FlowContainer.to_row_data_sheet(strip_uuids=…)`
+  is called on an empty flow with a spy on `RowDataSheet.__init__`; what it passes as
+  `excluded_headers` is recorded (a set: emitted SORTED; without strip_uuids it must be empty).
+* headers of the id fields: RUNTIME — `FlowRowModel.field_name_to_header_name` applied to the
+  uuid-carrying field names (pydantic field list), sorted.
+* the start id, the initial remapping dict, the `|goto.` literal / `go_to` type of back-edge rows and
+  the `|` of temporary row ids are intermediate values no caller can observe: SOURCE STRUCTURE,
+  located BY CONTENT in whatever method of FlowContainer holds them (`Edge(from_=…)`, the
+  all-constant dict holding the start id, the f-string given as `row_id=` to `FlowRowModel(…)`, the
+  f-string joining a uuid with `short_name()`), not by the name of a private method or local.
+"""
+import ast
+import inspect
+from unittest import mock
+
+from .. import t1lib
+from ..extract_tables import _find_class, _parse, lean_str, lean_str_list
+
+
+def excluded_headers():
+    cont = t1lib.load("rpft.rapidpro.models.containers")
+    rds = t1lib.load("rpft.parsers.common.rowdatasheet").RowDataSheet
+    orig = rds.__init__
+    sig = inspect.signature(orig)
+    seen = []
+
+    def spy(self, *a, **k):
+        b = sig.bind(self, *a, **k)
+        b.apply_defaults()
+        seen.append(b.arguments.get("excluded_headers"))
+        return orig(self, *a, **k)
+
+    out = {}
+    for strip in (True, False):
+        seen.clear()
+        with mock.patch.object(rds, "__init__", spy):
+            cont.FlowContainer("t1 probe").to_row_data_sheet(strip_uuids=strip)
+        assert len(seen) == 1, ("RowDataSheet constructed", len(seen))
+        out[strip] = sorted(seen[0] or [])
+        assert all(isinstance(h, str) for h in out[strip])
+    if out[False]:
+        raise ValueError("excluded_headers without strip_uuids is not empty")
+    return out[True]
+
+
+def _lits(js: ast.JoinedStr) -> str:
+    return "".join(p.value for p in js.values if isinstance(p, ast.Constant))
 
 
 def tables() -> str:
-    mod = _parse("rapidpro/models/containers.py")
-    cls = _find_class(mod, "FlowContainer")
-    # excluded_headers = {...} if strip_uuids else {}
-    fn = _find_func(cls, "to_row_data_sheet")
-    excluded = None
-    for n in ast.walk(fn):
-        if isinstance(n, ast.Assign) and any(isinstance(t, ast.Name) and t.id == "excluded_headers" for t in n.targets):
-            v = n.value
-            if isinstance(v, ast.IfExp) and isinstance(v.test, ast.Name) and v.test.id == "strip_uuids":
-                excluded = sorted(ast.literal_eval(v.body))
-                if ast.literal_eval(v.orelse):
-                    raise ValueError("excluded_headers without strip_uuids is not empty")
-    if excluded is None:
-        raise KeyError("excluded_headers")
-    # the start id: Edge(from_="start") and the initial remapping dict
-    tr = _find_func(cls, "to_rows")
-    start_from, start_dict = None, None
-    for n in ast.walk(tr):
-        if isinstance(n, ast.Call) and isinstance(n.func, ast.Name) and n.func.id == "Edge":
-            for k in n.keywords:
-                if k.arg == "from_":
-                    start_from = ast.literal_eval(k.value)
-        if isinstance(n, ast.Assign) and any(isinstance(t, ast.Name) and t.id == "temp_row_id_to_row_id" for t in n.targets):
-            start_dict = sorted(ast.literal_eval(n.value).items())
-    # go_to rows: row_id f-string literal part and the type
-    rec = _find_func(cls, "_to_rows_recurse")
-    goto_lit, goto_type, temp_sep = None, None, None
-    for n in ast.walk(rec):
-        if isinstance(n, ast.Call) and isinstance(n.func, ast.Name) and n.func.id == "FlowRowModel":
-            for k in n.keywords:
-                if k.arg == "row_id" and isinstance(k.value, ast.JoinedStr):
-                    goto_lit = "".join(p.value for p in k.value.values if isinstance(p, ast.Constant))
-                if k.arg == "type":
-                    goto_type = ast.literal_eval(k.value)
-        if isinstance(n, ast.Assign) and any(isinstance(t, ast.Name) and t.id == "temp_row_id" for t in n.targets):
-            if isinstance(n.value, ast.JoinedStr):
-                temp_sep = "".join(p.value for p in n.value.values if isinstance(p, ast.Constant))
-    # header names of the uuid-carrying fields of FlowRowModel that the model drops
-    rm = _parse("parsers/creation/flowrowmodel.py")
-    frm = _find_class(rm, "FlowRowModel")
-    fmap = None
-    f2h = _find_func(frm, "field_name_to_header_name")
-    for n in ast.walk(f2h):
-        if isinstance(n, ast.Assign) and any(isinstance(t, ast.Name) and t.id == "field_map" for t in n.targets):
-            fmap = ast.literal_eval(n.value)
-    fields = [s.target.id for s in frm.body if isinstance(s, ast.AnnAssign)]
-    id_fields = [f for f in ("obj_id", "node_uuid") if f in fields]
-    id_headers = sorted(fmap.get(f, f) for f in id_fields)
+    excluded = excluded_headers()
+    frm = t1lib.load("rpft.parsers.creation.flowrowmodel").FlowRowModel
+    id_fields = [f for f in ("obj_id", "node_uuid") if f in frm.__fields__]
+    id_headers = sorted(frm.field_name_to_header_name(f) for f in id_fields)
+
+    cls = _find_class(_parse("rapidpro/models/containers.py"), "FlowContainer")
+    # Edge(from_="start")
+    start_from = t1lib.one({
+        ast.literal_eval(k.value)
+        for n in t1lib.find_all(cls, lambda n: isinstance(n, ast.Call) and t1lib.dotted(n.func) == "Edge")
+        for k in n.keywords if k.arg == "from_" and isinstance(k.value, ast.Constant)
+    }, "Edge(from_=<constant>) in FlowContainer")
+    # the initial remapping dict: an all-constant dict that holds the start id
+    dicts = []
+    for n in t1lib.find_all(cls, lambda n: isinstance(n, ast.Dict) and n.keys):
+        try:
+            d = ast.literal_eval(n)
+        except (ValueError, SyntaxError, TypeError):
+            continue
+        if start_from in d and all(isinstance(k, str) and isinstance(v, str) for k, v in d.items()):
+            dicts.append(sorted(d.items()))
+    start_dict = t1lib.one(dicts, "constant dict holding the start id")
+    # back-edge rows: FlowRowModel(row_id=f"…|goto.{…}", type="go_to", …)
+    gotos = []
+    for n in t1lib.find_all(cls, lambda n: isinstance(n, ast.Call) and t1lib.dotted(n.func) == "FlowRowModel"):
+        kw = {k.arg: k.value for k in n.keywords}
+        if isinstance(kw.get("row_id"), ast.JoinedStr) and isinstance(kw.get("type"), ast.Constant):
+            gotos.append((_lits(kw["row_id"]), kw["type"].value))
+    goto_lit, goto_type = t1lib.one(gotos, "FlowRowModel(row_id=f'…', type=…) in FlowContainer")
+    # temporary ids: f"{node.uuid}|{node.short_name()}"
+    seps = {
+        _lits(n) for n in t1lib.find_all(cls, lambda n: isinstance(n, ast.JoinedStr))
+        if any(isinstance(c, ast.Call) and isinstance(c.func, ast.Attribute) and c.func.attr == "short_name" for c in ast.walk(n))
+    }
+    temp_sep = t1lib.one(seps, "f-string joining a uuid with short_name()")
     return (
         f"def exportExcludedHeaders : List (List Char) := {lean_str_list(excluded)}\n"
         f"def exportIdFieldHeaders : List (List Char) := {lean_str_list(id_headers)}\n"
